@@ -254,6 +254,8 @@ Dump == (Dumping /\ ev.ev \in {"NodeOp", "Reap", "StaleFire", "UdpAlive"}) => Pr
 (* Properties on the model: every transition satisfies every step predicate *)
 StepOK(e) == \A i \in DOMAIN StepProps : (e.ev \in {"NodeOp", "Reap", "UdpAlive"}) => StepHolds(StepProps[i], e)
 P_Step    == [][StepOK(ev')]_vars
+\* every transition agrees with the order core that Apalache verifies for unbounded incarnations
+P_OrderCore == [][OrderCore(ev')]_vars
 P_C07     == [][(ev'.ev \in {"NodeOp", "Reap"}) => (C07_Order(ev', ghost) /\ C07_Log(ev', ghost))]_vars
 
 \* model invariants (conformance aids, never verdicts)
